@@ -195,6 +195,9 @@ type EOp struct {
 	Custom string
 	Text   string
 	Filter *fileadapter.Filter
+	// NoBuild (setrm): install the role manager only, without the BuildRoleLinks that normally follows. Only
+	// used while no grouping rule is listed, where both leave the same (empty) graph, so the model line is the same
+	NoBuild bool
 	// NilFilter: pass an untyped nil filter
 	NilFilter bool
 	// BadFilter: pass a value that is not a *Filter
@@ -522,6 +525,12 @@ func (s *Sess) Exec(o EOp) (obs string) {
 			e.SetNamedRoleManager(o.PType, defaultrolemanager.NewRoleManager(10))
 		} else {
 			e.SetNamedRoleManager(o.PType, defaultrolemanager.NewRoleManagerImpl(10))
+		}
+		if o.NoBuild {
+			if gp, _ := e.GetNamedGroupingPolicy(o.PType); len(gp) > 0 {
+				panic("setrm NoBuild with listed grouping rules")
+			}
+			return "ok"
 		}
 		return okErr(e.BuildRoleLinks())
 	case "setmodel":
